@@ -343,6 +343,56 @@ pub fn suite_http(dir: &str, seed: u64, thorough: bool, st: &mut Stats) {
         st.count("http/read_at");
         out.push(&line, &format!("{} | {}", items_str(&[r]), log_str(&log)));
     }
+    // one reader used for several streams: a stream dropped in the middle of a run (bytes received but not handed
+    // out), possibly a read_at, then another stream -- the later stream behaves as on a fresh reader
+    for _ in 0..(n / 5) {
+        let flen = rng.range(120, 400) as usize;
+        let file: Vec<u8> = (0..flen).map(|_| rng.next() as u8).collect();
+        // first stream: a run of 2..4 adjacent chunks of which only `take` are consumed
+        let a0 = rng.below(30);
+        let mut first: Vec<(u64, usize)> = vec![];
+        let mut pos = a0;
+        for _ in 0..rng.range(2, 4) { let sz = rng.range(1, 12) as usize; first.push((pos, sz)); pos += sz as u64; }
+        let take = rng.range(1, first.len() as u64 - 1) as usize;
+        let ranges = gen_ranges(&mut rng, flen);
+        let do_read_at = rng.chance(1, 3);
+        let srv = ScriptServer::start(file.clone(), vec![]);
+        let url = srv.url();
+        let logc = srv.log.clone();
+        let (f1, r2) = (first.clone(), ranges.clone());
+        let r = std::panic::catch_unwind(move || {
+            let rt = tokio::runtime::Builder::new_current_thread().enable_all().build().unwrap();
+            rt.block_on(async move {
+                let mut reader = HttpReader::from_url(url.parse().unwrap()).retries(0).retry_delay(Duration::from_millis(0));
+                {
+                    let mut st1 = reader.read_chunks(f1.iter().map(|(o, s)| ChunkOffset::new(*o, *s)).collect());
+                    for _ in 0..take { let _ = st1.next().await; }
+                }
+                if do_read_at { let _ = reader.read_at(3, 5).await; }
+                let before = logc.lock().unwrap().len();
+                let mut st2 = reader.read_chunks(r2.iter().map(|(o, s)| ChunkOffset::new(*o, *s)).collect());
+                let mut items = vec![];
+                while let Some(it) = st2.next().await {
+                    match it { Ok(b) => items.push(Ok(b.to_vec())), Err(e) => { items.push(Err(err_class(&e))); break; } }
+                    if items.len() > 10000 { break; }
+                }
+                (items, before)
+            })
+        });
+        let log = srv.finish();
+        let (items, before) = r.unwrap_or_else(|_| (vec![Err("PANIC".to_string())], 0));
+        let log2: Vec<(u64, u64)> = log[before.min(log.len())..].to_vec();
+        let line = format!("http {} {} 0 -", hex(&file), if ranges.is_empty() { "-".into() } else { ranges.iter().map(|(o, s)| format!("{}+{}", o, s)).collect::<Vec<_>>().join(",") });
+        st.evaluations += 1;
+        st.oracle_checks += 1;
+        st.count("http/reader-reused");
+        if log2 != runs(&ranges) {
+            st.violation("C07", &format!("second stream on a reader: requests {:?} are not the maximal runs {:?}", log2, runs(&ranges)), &line);
+        }
+        let want: Vec<Result<Vec<u8>, String>> = ranges.iter().map(|(o, s)| Ok(file[*o as usize..*o as usize + s].to_vec())).collect();
+        if items != want { st.violation("C08", "second stream on a reader did not deliver exactly the requested bytes", &line); }
+        out.push(&line, &format!("{} | {}", items_str(&items), log_str(&log2)));
+    }
     out.finish();
 }
 
